@@ -329,6 +329,40 @@ class DataFrameCtor:
         return Table(_fresh("frame"), space=sp, cols=cols)
 
 
+class SeriesCtor:
+    """pd.Series(data, index=<labels of a row space>, dtype=...) -> a column over that row space (scalars are broadcast)"""
+    __name__ = "Series"
+    py = None
+    typ = "Series"
+
+    def _pyvc_isinstance(self, x):
+        return isinstance(x, Series)
+
+    def fn(self, it, data=None, index=None, dtype=None, **k):
+        idx = index.arr() if isinstance(index, Series) else index
+        if not isinstance(idx, Arr) or isinstance(data, Opaque):
+            return Opaque("Series(...)")
+        if isinstance(data, Series):
+            data = data.arr()
+        floaty = "float" in getattr(dtype, "__name__", str(dtype))
+        if isinstance(data, Arr):
+            if data.space is not idx.space:
+                raise EngineError("Series from data and index of different row spaces")
+            e = data.e
+        elif data is None:
+            e = XV(0, True)
+        elif is_scalar(data):
+            e = data
+        else:
+            return Opaque("Series(...)")
+        if floaty and not isinstance(e, XV):
+            if isinstance(e, float) and e != e:
+                e = XV(0, True)
+            elif isinstance(e, SV) and e.is_pv():
+                raise EngineError("Series(dtype=float) of untyped values")
+        return Arr(idx.space, e, idx.mask)
+
+
 def install(it):
     reset()
     it.attr_hooks.append((SymMap, symmap_attr))
